@@ -147,6 +147,24 @@ def _nt(bt, recs, exp):
     return edge and refl_or_drop
 
 
+def _neighbour_table(bt):
+    """Same chromosome names, lengths and bin count; every interior edge that has room moves by one base pair."""
+    edges, moved = [], False
+    for e in bt["edges"]:
+        e2 = list(e)
+        for k in range(1, len(e2) - 1):
+            if e2[k] + 1 < e2[k + 1]:
+                e2[k] += 1
+                moved = True
+            elif e2[k] - 1 > e2[k - 1]:
+                e2[k] -= 1
+                moved = True
+        edges.append(e2)
+    if not moved:
+        return None
+    return {"names": list(bt["names"]), "edges": edges, "kinds": ["variable"] * len(edges), "b": bt.get("b")}
+
+
 def check_records(case, ctx: Ctx):
     from cooler.create import aggregate_records, sanitize_records
 
@@ -157,6 +175,14 @@ def check_records(case, ctx: Ctx):
     bins = gen.bins_df(bt, categorical=bool(case["categorical_bins"]))
     skw = dict(schema="pairs", is_one_based=case["one_based"], tril_action=case["tril"],
                sided_fields=("chrom", "pos", "strand"), sort=case["sort"])
+    prior_bt = _neighbour_table(bt) if case["perm"] % 3 == 0 else None
+    if prior_bt is not None:
+        # history: just before, the same process built a sanitizer for ANOTHER segmentation of the same chromosomes with the
+        # same number of bins (interior bin edges moved by one base pair)
+        try:
+            sanitize_records(gen.bins_df(prior_bt), schema="pairs", sided_fields=("chrom", "pos", "strand"))
+        except Exception:  # noqa: BLE001 - irrelevant for the case under test
+            pass
     if case["categorical_bins"] == "lexical" and sorted(bt["names"]) != list(bt["names"]):
         bins["chrom"] = bins["chrom"].astype(object).astype("category")
         # such a table may be refused outright (the unchanged tree does, with an AssertionError); if it is accepted,
@@ -359,7 +385,9 @@ def check_cli_pairs(case, ctx: Ctx):
                 f.write(f"r{r[6]}\t{r[0]}\t{r[1] + sh}\t{r[2]}\t{r[3] + sh}\t{r[4]}\t{r[5]}\n")
         out = os.path.join(d, "out.cool")
         args = ["cload", "pairs", bins_arg, pairs, out, "-c1", "2", "-p1", "3", "-c2", "4", "-p2", "5",
-                "--chunksize", str(case["chunksize"])]
+                "--chunksize", str(case["chunksize"]),
+                # a small fan-in of the merge step whenever the text is read in many chunks (two-pass merge)
+                *(["--max-merge", "2"] if case["chunksize"] <= 2 and case["perm"] % 2 else [])]
         if case["zero_based"]:
             args.append("--zero-based")
         if case["copy"] in ("duplex", "square-duplex"):
@@ -464,6 +492,8 @@ def check_cli_load(case, ctx: Ctx):
                 f.write("".join(f"id{t}_{k}\t" for k in range(sh_cols)) + lines[t] + "\n")
         out = os.path.join(d, "out.cool")
         args = ["load", "-f", fmt, bins_arg, txt, out, "--chunksize", str(chunksize)]
+        if chunksize <= 2 and case["perm"] % 2:
+            args += ["--max-merge", "2"]
         if sh_cols:
             pos = ["bin1_id", "bin2_id", "count"] if fmt == "coo" else ["chrom1", "start1", "end1", "chrom2", "start2", "end2", "count"]
             for k, nm in enumerate(pos):
